@@ -619,7 +619,11 @@ def signature(ev):
     clause = bad['clause']
     lines = ev['stream'].split(b'\n')[:-1]
     if clause == 'one_reply_per_line':
-        return 'C07:one_reply_per_line:' + ('handler-died' if ev['impl']['died'] else 'count')
+        if ev['impl']['died']:
+            import re
+            funcs = re.findall(r', in (\w+)', ev['impl']['died_text'])
+            return 'C07:one_reply_per_line:handler-died-in-' + (funcs[-1] if funcs else '?')
+        return 'C07:one_reply_per_line:count'
     if clause == 'reply_fits':
         k = bad['k']
         replies = [o for o in ev['impl']['outs'] if obs_frame(o)['a'] not in (hx(b'_'), hx(b'update'), hx(b'log'))]
